@@ -239,7 +239,10 @@ fn gen_reg(g: &mut Gen, t: reg::Table) -> Item {
 /// range, which is then a fault too).
 pub fn gen_unregistered(g: &mut Gen, t: reg::Table, has_private: bool) -> Item {
     loop {
-        let c = match g.below(6) {
+        let c = match g.below(8) {
+            // next to the private-use boundary, next to an assigned value
+            6 => -65536 + g.range_i64(0, 12),
+            7 => t[g.below(t.len())].1.saturating_add(g.range_i64(-2, 2)),
             0 => g.range_i64(-70, 70),
             1 => -65536,
             2 => g.range_i64(258, 9999),
@@ -359,7 +362,7 @@ fn gen_crit(g: &mut Gen, f: &mut Faults) -> Item {
     Item::Array((0..n).map(|_| gen_reg(g, reg::HEADER_PARAMETER)).collect())
 }
 
-fn gen_content_type(g: &mut Gen, f: &mut Faults) -> Item {
+pub fn gen_content_type(g: &mut Gen, f: &mut Faults) -> Item {
     if f.take(g, "content-type-bad") {
         return match g.below(12) {
             0 => gen_unregistered(g, reg::COAP_CONTENT_FORMAT, false),
@@ -389,7 +392,8 @@ fn gen_content_type(g: &mut Gen, f: &mut Faults) -> Item {
     }
     if g.ratio(1, 8) {
         // well-formed by construction: type "/" subtype with slash-free parameters
-        const W: &[&str] = &["a", "text", "application", "x-é", "café", "json", "vnd.x+cbor", "中", "😀"];
+        // (pieces may hold `;` — the only structure demanded is a single `/` somewhere)
+        const W: &[&str] = &["a", "text", "application", "x-é", "café", "json", "vnd.x+cbor", "中", "😀", "a;b", "vnd.example;v=1", ";a", "x=\"y\""];
         const P: &[&str] = &["", ";p=1", "; charset=utf-8", ";q=\"é\"", "+x;y", " ;z"];
         let a: &&str = g.pick(W);
         let b: &&str = g.pick(W);
@@ -534,6 +538,29 @@ fn gen_spread_label(g: &mut Gen, i: usize) -> Item {
     }
 }
 
+/// Before a duplicate is planted: a few more labels of *different kinds and encoded sizes* (short
+/// texts, one-, two- and four-byte integers of both signs), so that the repeated label has
+/// neighbours of every class around it.
+pub fn add_mixed_labels(g: &mut Gen, entries: &mut Vec<(Item, Item)>) {
+    let n = 2 + g.below(4);
+    for i in 0..n {
+        let l = match g.below(7) {
+            0 => Item::Text((*g.pick(&["a", "b", "z", ""])).to_string()),
+            1 => Item::Int(256 + g.range_i64(0, 65279) as i128),
+            2 => Item::Int(-129 - g.range_i64(0, 127) as i128),
+            3 => Item::Int(24 + g.range_i64(0, 231) as i128),
+            4 => Item::Int(-25 - g.range_i64(0, 103) as i128),
+            5 => Item::Int(-32769 - g.range_i64(0, 32767) as i128),
+            _ => Item::Int(65536 + g.range_i64(0, 1 << 20) as i128),
+        };
+        if entries.iter().any(|(k, _)| k == &l) {
+            continue;
+        }
+        let at = g.below(entries.len() + 1);
+        entries.insert(at, (l, Item::Int(i as i128)));
+    }
+}
+
 fn label_eq(a: &Item, b: &Item) -> bool {
     a == b
 }
@@ -613,6 +640,9 @@ pub fn gen_header(g: &mut Gen, f: &mut Faults, depth: usize) -> Item {
         entries.insert(at, (gen_non_label(g), gen_value(g, 1, false)));
     }
     if !entries.is_empty() && (f.take(g, "duplicate-label") || (many && f.take_odds(g, "duplicate-label", 2))) {
+        if !many && g.bool() {
+            add_mixed_labels(g, &mut entries);
+        }
         let src = g.below(entries.len());
         let k = entries[src].0.clone();
         let v = if g.bool() { entries[src].1.clone() } else { gen_value(g, 1, false) };
@@ -945,7 +975,46 @@ pub fn gen_keyset(g: &mut Gen, f: &mut Faults) -> Item {
         return gen_wrong_kind(g, &["array"]);
     }
     let n = g.weighted(&[1, 4, 3, 2]);
-    Item::Array((0..n).map(|_| gen_key(g, f)).collect())
+    let mut v: Vec<Item> = (0..n).map(|_| gen_key(g, f)).collect();
+    // correlation between sibling keys: a later key is an earlier one again — whole, or with one
+    // parameter changed / added / removed (same kid and kty, other key material, and the like)
+    if n >= 2 && g.ratio(1, 4) {
+        for k in 1..n {
+            if g.bool() {
+                let from = g.below(k);
+                let mut c = v[from].clone();
+                if let Item::Map(m) = &mut c {
+                    match g.below(4) {
+                        0 => {}
+                        1 => {
+                            let l = Item::Int(-20 - g.range_i64(0, 9) as i128);
+                            if !m.iter().any(|(k, _)| k == &l) {
+                                m.push((l, Item::Bytes(g.small_bytes())));
+                            }
+                        }
+                        2 => {
+                            // change the value of a key-type-specific (negative) parameter, if any
+                            if let Some(e) = m.iter_mut().find(|(l, _)| matches!(l, Item::Int(i) if *i < 0)) {
+                                e.1 = Item::Bytes(g.nonempty_bytes());
+                            } else {
+                                m.push((Item::Int(-1), Item::Int(g.range_i64(1, 8) as i128)));
+                            }
+                        }
+                        _ => {
+                            if m.len() > 1 {
+                                let at = g.below(m.len());
+                                if m[at].0 != Item::Int(1) {
+                                    m.remove(at);
+                                }
+                            }
+                        }
+                    }
+                }
+                v[k] = c;
+            }
+        }
+    }
+    Item::Array(v)
 }
 
 // ---------------------------------------------------------------------------------------------
